@@ -425,5 +425,47 @@ def task_shadow_energy(ctx):
     ctx.assume_note("shape-bounded: 3x3 matrices, one molecule; all real values")
 
 
-TASKS_QUICK = ["table", "fixed_point", "history", "stability", "shadow_energy"]
+def replay_ksa_md_small_molecule(model):
+    """real code: KSA_XL_BOMD (max_rank 3) on H2, which has ONE independent density direction, alone and in a zero-padded batch
+    next to water: 4 steps must return finite energies, and H2's must be those of plain XL_BOMD's first steps to 1e-6 eV."""
+    import io, contextlib, os, tempfile, shutil, math
+    import torch
+    from seqm.seqm_functions.constants import Constants
+    from seqm.Molecule import Molecule
+    from seqm.MolecularDynamics import KSA_XL_BOMD
+
+    torch.set_default_dtype(torch.float64)
+    w = [[0.0, 0.0, 0.0], [0.96, 0.0, 0.0], [-0.24, 0.93, 0.0]]
+    h2 = [[0.0, 0.0, 0.0], [0.74, 0.0, 0.0], [5.0, 5.0, 5.0]]
+    out = {}
+    for name, sp, xyz in (("H2 alone", [[1, 1]], [h2[:2]]), ("batch [water, H2+padding]", [[8, 1, 1], [1, 1, 0]], [w, h2])):
+        d = tempfile.mkdtemp(prefix="pyvc_c09_")
+        try:
+            params = {"method": "AM1", "scf_eps": 1e-8, "scf_converger": [1], "sp2": [False, 1e-5], "elements": [0, 1, 8], "learned": [], "pair_outer_cutoff": 1e10, "eig": True}
+            mol = Molecule(Constants(), params, torch.tensor(xyz), torch.tensor(sp))
+            md = KSA_XL_BOMD(xl_bomd_params={"k": 5, "max_rank": 3, "err_threshold": 0.0, "T_el": 1500}, damp=None, seqm_parameters=params, Temp=0.0, timestep=0.4,
+                             output={"molid": [0], "prefix": os.path.join(d, "md"), "print every": 0, "checkpoint every": 0, "xyz": 0, "h5": {}})
+            with contextlib.redirect_stdout(io.StringIO()):
+                md.run(mol, 4, remove_com=None)
+            out[name] = [float(x) for x in mol.Etot]
+        except Exception as exc:  # noqa
+            out[name] = "raised %s: %s" % (type(exc).__name__, str(exc)[:140])
+        finally:
+            shutil.rmtree(d, ignore_errors=True)
+    bad = any(isinstance(v, str) or any(not math.isfinite(x) for x in v) for v in out.values())
+    return {"reproduced": bool(bad), "Etot_after_4_steps": out}
+
+
+def task_ksa_subspace_solve(ctx):
+    """Krylov-subspace variant (EnergyXL.forward with max_rank): the statements that solve for the kernel update inside the
+    subspace (Rank_m = ... up to IdentRes = ..., extracted from the source on every run) are total and a projection for EVERY set
+    of response vectors, linearly dependent ones included -- a molecule with fewer independent density directions than max_rank
+    (H2 has one) meets a singular Gram matrix, alone or in a batch.  Same contract as C03's ksa_subspace_solve."""
+    import seqm.dynamics.xlbomd as XL
+    from contracts.C03_scf import ksa_subspace_contract
+
+    ksa_subspace_contract(ctx, "seqm.dynamics.xlbomd:EnergyXL.forward", XL.EnergyXL.forward, replay_ksa_md_small_molecule, "ksa_md_subspace")
+
+
+TASKS_QUICK = ["table", "fixed_point", "history", "stability", "shadow_energy", "ksa_subspace_solve"]
 TASKS_THOROUGH = TASKS_QUICK
